@@ -293,6 +293,9 @@ def domain_eligibility(model):
         ('label+fields-match', {}, {'X': [{'k': 1}]}),
         ('label+fields-mismatch', {}, {'X': [{'k': 2}, {'j': 0}]}),
         ('hide-correct', {'correct': {True: [{}]}}, {}),
+        ('label+unrelated-category-entry', {'runtime': {'zzz': [{}]}}, {'X': [{}]}),
+        ('label+category-entry-with-other-fields', {'runtime': {'x': [{'k': 2}]}}, {'X': [{}]}),
+        ('category+label+unrelated-label-entry', {'runtime': {'x': [{}]}}, {'zzz': [{}]}),
     ]
     for (sname, s, sl), trig, muted, kind, else_m, correct in itertools.product(
             sups, (True, False), (None, True, False), ('Mistake', model.KIND_COMPLIMENT, model.KIND_INSTRUCTIONAL),
